@@ -22,17 +22,23 @@ type wsHub struct {
 	srv    *httptest.Server
 	mu     sync.Mutex
 	worlds map[string]*world
+	ov     map[string]*ovWorld
 	next   int
 }
 
 var hub *wsHub
 
 func startHub() *wsHub {
-	h := &wsHub{worlds: map[string]*world{}}
+	h := &wsHub{worlds: map[string]*world{}, ov: map[string]*ovWorld{}}
 	h.srv = httptest.NewServer(http.HandlerFunc(func(rw http.ResponseWriter, r *http.Request) {
 		h.mu.Lock()
 		w := h.worlds[r.URL.Query().Get("w")]
+		o := h.ov[r.URL.Query().Get("ov")]
 		h.mu.Unlock()
+		if o != nil {
+			theAPI.ServeGraphQLWS(rw, r.WithContext(context.WithValue(r.Context(), ovKey, o)))
+			return
+		}
 		if w == nil {
 			http.Error(rw, "no such world", 404)
 			return
